@@ -3,6 +3,7 @@ package checks
 import (
 	"bytes"
 	"context"
+	"encoding/binary"
 	"fmt"
 	"math/rand/v2"
 	"os"
@@ -26,6 +27,7 @@ import (
 	"github.com/evstack/ev-node/pkg/config"
 	"github.com/evstack/ev-node/pkg/p2p"
 	"github.com/evstack/ev-node/pkg/p2p/key"
+	storepkg "github.com/evstack/ev-node/pkg/store"
 	"github.com/evstack/ev-node/sequencers/single"
 
 	"verif/harness/sim"
@@ -45,21 +47,22 @@ import (
 // final phase began (all of those blocks reach the DA layer and are scanned within the phase).
 
 type rnode struct {
-	name   string
-	idx    int
-	agg    bool
-	sn     *sim.Node
-	nk     *key.NodeKey
-	addr   multiaddr.Multiaddr
-	pid    peer.ID
-	n      node.Node
-	cancel context.CancelFunc
-	done   chan struct{}
-	err    error
-	up     bool
-	cut    bool
-	starts int
-	wantUp bool // the operator wants this node running: a refused start is retried at the next timeline step
+	name         string
+	idx          int
+	agg          bool
+	sn           *sim.Node
+	nk           *key.NodeKey
+	addr         multiaddr.Multiaddr
+	pid          peer.ID
+	n            node.Node
+	cancel       context.CancelFunc
+	done         chan struct{}
+	err          error
+	up           bool
+	cut          bool
+	starts       int
+	lastIncluded uint64
+	wantUp       bool // the operator wants this node running: a refused start is retried at the next timeline step
 }
 
 type rworld struct {
@@ -224,6 +227,9 @@ func (rw *rworld) stop(rn *rnode, kill bool, step int) bool {
 	if kill {
 		restoreDir(rn.sn.Root, files)
 	}
+	if !rw.checkIncluded(rn, step) {
+		return false
+	}
 	if !kill {
 		rn.sn.Fence.Kill() // nothing of the stopped incarnation may touch the durable image any more
 		if d := time.Since(t0); d > 12*time.Second {
@@ -232,6 +238,27 @@ func (rw *rworld) stop(rn *rnode, kill bool, step int) bool {
 			return false
 		}
 	}
+	return true
+}
+
+// checkIncluded reads the DA-included height a stopped node has persisted: it never decreases from one
+// incarnation to the next and never exceeds the node's chain height (C07, safety part).
+func (rw *rworld) checkIncluded(rn *rnode, step int) bool {
+	b, err := rn.sn.Peek().GetMetadata(context.Background(), storepkg.DAIncludedHeightKey)
+	var inc uint64
+	if err == nil && len(b) == 8 {
+		inc = binary.LittleEndian.Uint64(b)
+	}
+	h := rn.sn.Height()
+	if inc > h {
+		rw.o.Fail("C13/invariant-C07-violated", "C13/invariant-C07-violated/da-included-beyond-chain/"+rn.name, step, fmt.Sprintf("timeline step %d: %s (start %d) persisted DA-included height %d but its chain height is %d", step, rn.name, rn.starts, inc, h), "the DA-included height never exceeds the chain height")
+		return false
+	}
+	if inc < rn.lastIncluded {
+		rw.o.Fail("C13/invariant-C07-violated", "C13/invariant-C07-violated/da-included-decreased/"+rn.name, step, fmt.Sprintf("timeline step %d: %s (start %d) persisted DA-included height %d, the previous incarnation had persisted %d", step, rn.name, rn.starts, inc, rn.lastIncluded), "the DA-included height never decreases, also across restarts")
+		return false
+	}
+	rn.lastIncluded = inc
 	return true
 }
 
@@ -247,6 +274,9 @@ func (rw *rworld) reap(step int, what string) bool {
 		case <-x.done:
 			x.up = false
 			x.sn.Fence.Kill()
+			if !rw.checkIncluded(x, step) {
+				return false
+			}
 			if x.err != nil && strings.Contains(x.err.Error(), "error while starting") {
 				rw.o.Count("timeline:start-refused-(no-peer-has-the-genesis-yet)", 1)
 				continue
@@ -475,6 +505,10 @@ func c13RestartBody(t *testing.T, s *sim.Scn, o *sim.Outcome) {
 		o.Fail("C13/invariant-C06-violated", "", -1, "whole node with restarts: "+msg, "sound submissions on every interleaving")
 		return
 	}
+	if msg := sim.CheckFinalizeOrder(agg.sn.Exec); msg != "" {
+		o.Fail("C13/invariant-C07-violated", "", -1, "whole node with restarts, sequencer: "+msg, "finalize in order (a repeat only by a later incarnation)")
+		return
+	}
 	bg := context.Background()
 	for _, f := range rw.nodes[1:] {
 		fh := f.sn.Height()
@@ -485,6 +519,10 @@ func c13RestartBody(t *testing.T, s *sim.Scn, o *sim.Outcome) {
 				o.Fail("C13/invariant-C02-violated", "", -1, fmt.Sprintf("whole node %s at height %d: block %d differs from the proposer's or is missing (%v/%v)", f.name, fh, x, e1, e2), "prefix of the proposer's chain")
 				return
 			}
+		}
+		if msg := sim.CheckFinalizeOrder(f.sn.Exec); msg != "" {
+			o.Fail("C13/invariant-C07-violated", "", -1, "whole node with restarts, "+f.name+": "+msg, "finalize in order (a repeat only by a later incarnation)")
+			return
 		}
 		if reached[f.name] < target {
 			o.Fail("C13/invariant-C02-violated", "C13/invariant-C02-violated/not-converged-after-faults-stop/"+f.name, -1,
